@@ -115,6 +115,14 @@ func (en *Engine) VerifyFunction(fn *ssa.Function, fc *FuncContract, pc *PkgCont
 		en.curFunc += fmt.Sprintf("{case%d}", caseIdx+1)
 	}
 	en.paths = 0
+	en.inlineNames = map[string]bool{}
+	for _, n := range fc.Inline {
+		en.inlineNames[n] = true
+	}
+	en.curUses = map[string]bool{}
+	for _, n := range fc.Lemmas {
+		en.curUses[n] = true
+	}
 	start := len(en.obls)
 	defer func() {
 		if r := recover(); r != nil {
@@ -143,16 +151,61 @@ func (en *Engine) VerifyFunction(fn *ssa.Function, fc *FuncContract, pc *PkgCont
 		if fc.Params[i] != p.Name() && fc.Params[i] != "_" {
 			fail("contract for %s: parameter %d is named %q in the code, %q in the contract", res.Func, i, p.Name(), fc.Params[i])
 		}
-		v := en.makeParam(st, p.Name(), p.Type(), shared, root[p.Name()])
+		var v Value
+		if g, ok := fc.Binds[p.Name()]; ok {
+			gv := en.lookupGlobal(fn.Pkg.Pkg.Path(), g)
+			if gv == nil {
+				fail("contract of %s binds %s to unknown global %s", res.Func, p.Name(), g)
+			}
+			v = PtrV{R: en.globalRegion(gv)}
+		} else {
+			v = en.makeParam(st, p.Name(), p.Type(), shared, root[p.Name()])
+		}
 		fr.env[p] = v
 		env[p.Name()] = v
 	}
 	sc := &specCtx{en: en, pc: pc, fc: fc, st: st, env: env, oldEnv: env}
+	for _, gname := range fc.HavocGlobals {
+		gv := en.lookupGlobal(fn.Pkg.Pkg.Path(), gname)
+		if gv == nil {
+			fail("contract of %s: unknown global %s", res.Func, gname)
+		}
+		r := en.globalRegion(gv)
+		var facts []*Term
+		st.mem[r] = freshCell(r.typ, r.name, &facts)
+		for _, f := range facts {
+			st.assume(f)
+		}
+	}
 	for _, r := range fc.Requires {
 		st.assume(sc.evalBool(r.Expr))
 	}
 	if caseIdx >= 0 {
 		st.assume(sc.evalBool(fc.Cases[caseIdx].Expr))
+	}
+	for _, name := range fc.Lemmas {
+		if name == "ground_tables" {
+			gf, _ := en.GroundFacts()
+			st.facts = append(st.facts, gf...)
+			en.usedAxioms["ground_tables [validated by evaluation against the executable curve specification]"] = true
+			continue
+		}
+		ax, apc := en.findAxiom(name)
+		if ax == nil {
+			fail("contract of %s uses unknown axiom %s", res.Func, name)
+		}
+		asc := &specCtx{en: en, pc: apc, fc: fc, st: st, env: map[string]Value{}}
+		st.facts = append(st.facts, asc.evalBool(ax.Body.Expr))
+		en.usedAxioms[name+" ["+ax.Tag+"]"] = true
+	}
+	// parameters fixed to a constant by the assumptions become that constant
+	for i, p := range fn.Params {
+		if t, ok := fr.env[p].(*Term); ok && t.op == OVar {
+			if iv := st.bounds.m[t.id]; iv.lo != nil && iv.hi != nil && iv.lo.Cmp(iv.hi) == 0 {
+				fr.env[p] = Const(iv.lo)
+				env[fn.Params[i].Name()] = Const(iv.lo)
+			}
+		}
 	}
 	entryMem := make(map[*Region]Cell, len(st.mem))
 	for k, v := range st.mem {
